@@ -18,24 +18,32 @@ def run(tier):
     worlds = []
     per = 80 if quick else 800
     for n, t in ([(2, 1), (3, 1), (3, 2), (4, 2)] if quick else [(n, t) for n in range(2, 5) for t in range(1, n)]):
-        allh, r = kl.histories(wd, n, t, maxops=2 if quick else 3)
+        allh, r = kl.histories(wd, n, t, maxops=2 if quick else 3, subset_refresh=True)
         states += r["distinct"]; trans += r["generated"]
         hs = [h for h in allh if kl.has_op(h, "refresh")]
+        # a refresh attempted by a strict subset of the shareholders (possible when t < n-1) must be refused
+        sub = [h for h in allh if kl.has_op(h, "refresh-subset")]
         for scheme, shape in (("frost", "short"), ("taproot", "long40")):
-            worlds.append({"scheme": scheme, "n": n, "t": t, "ids": shape, "hists": kl.sample(hs, per, sd, "c08%s%d%d" % (scheme, n, t))})
+            worlds.append({"scheme": scheme, "n": n, "t": t, "ids": shape,
+                           "hists": kl.sample(hs, per, sd, "c08%s%d%d" % (scheme, n, t)) + kl.sample(sub, per // 4, sd, "c08sub%s%d%d" % (scheme, n, t))})
     allh, r = kl.histories(wd, 2, 1, additive=True, maxops=2 if quick else 3)
     states += r["distinct"]; trans += r["generated"]
     hs = [h for h in allh if kl.has_op(h, "refresh")]
     worlds.append({"scheme": "doerner", "n": 2, "t": 1, "ids": "short", "hists": kl.sample(hs, 40 if quick else 400, sd, "c08doerner")})
     # CMP: one real refresh per world (about 10 s), then a few probes incl. stale material
     for n, t, k in ([(2, 1, 4), (3, 1, 4)] if quick else [(2, 1, 30), (3, 1, 30), (3, 2, 20), (4, 2, 12)]):
-        allh, r = kl.histories(wd, n, t, maxops=1)
+        allh, r = kl.histories(wd, n, t, maxops=1, kinds=("sign", "reconstruct", "online"))
         states += r["distinct"]; trans += r["generated"]
         hs = [h for h in allh if kl.has_op(h, "refresh") and len(h["probe"]["S"]) <= 2]
-        mixed = [h for h in hs if h["probe"]["expect"] == "mixed"]
-        ok = [h for h in hs if h["probe"]["expect"] == "ok"]
+        mixed = [h for h in hs if h["probe"]["expect"] == "mixed" and h["probe"]["kind"] != "online"]
+        ok = [h for h in hs if h["probe"]["expect"] == "ok" and h["probe"]["kind"] != "online"]
+        # presign before the refresh, sign online after it: some signer on pre-refresh material / all on refreshed material
+        online = [h for h in hs if h["probe"]["kind"] == "online" and h["probe"]["expect"] == "mixed"]
+        online_ok = [h for h in hs if h["probe"]["kind"] == "online" and h["probe"]["expect"] == "ok"]
+        ko = max(1, k // 4)
         worlds.append({"scheme": "cmp", "n": n, "t": t, "ids": "short", "deal": True,
-                       "hists": kl.sample(mixed, k // 2, sd, "c08cmpm%d%d" % (n, t)) + kl.sample(ok, k - k // 2, sd, "c08cmpo%d%d" % (n, t))})
+                       "hists": kl.sample(mixed, k // 2, sd, "c08cmpm%d%d" % (n, t)) + kl.sample(ok, k - k // 2, sd, "c08cmpo%d%d" % (n, t)) +
+                                kl.sample(online, ko, sd, "c08cmpon%d%d" % (n, t)) + kl.sample(online_ok, ko, sd, "c08cmpoo%d%d" % (n, t))})
     results = kl.run_worlds(wd, worlds, sd)
     st = kl.report(rep, results, {"C08"})
     rep.add_counts(evaluations=st["evaluations"])
